@@ -96,12 +96,14 @@ def main():
     m = {
         "version": 1,
         "setup_cmd": "./setup.sh",
-        "hooks": {"guard": "decstr_verif", "enable": "none needed: every observation is through the public API (no hook commits in /repo)",
-                  "baseline_off_cmd": "cd /repo && cargo test --workspace --no-fail-fast --offline", "source_commits": [], "add_only": True},
+        "hooks": {"guard": "decstr_verif",
+                  "enable": "RUSTFLAGS=\"--cfg decstr_verif\" (set by tools/site_validation.py for the hooked harness build only). Every check decides its property "
+                            "through the public API with the guard off; the hook module src/verif_hooks.rs only serves the advisory site-validation stage of C05 (DESIGN §10.7)",
+                  "baseline_off_cmd": "cd /repo && cargo test --workspace --no-fail-fast --offline", "source_commits": ["84d87ae"], "add_only": True},
         "engines": [{"name": "lean-model+correspondence", "path": "/verif/check", "serves_properties": [p["id"] for p in props],
                      "kind_free_text": "Lean 4 spec + model + theorems (lean/), Rust harness calling the real crate in-process (harness/), line protocol, Python driver/comparison (check)"}],
         "checks": checks,
-        "notes": "See DESIGN.md §10 for what is proved per property and what is tied by the correspondence only. /repo carries 14 unguarded `fix:` commits (known_findings.txt).",
+        "notes": "See DESIGN.md §10 for what is proved per property and what is tied by the correspondence only. /repo carries 14 unguarded `fix:` commits (known_findings.txt) and one add-only hook commit guarded by cfg(decstr_verif).",
         "not_applicable": [],
     }
     json.dump(m, open(os.path.join(VERIF, "MANIFEST.json"), "w"), indent=1)
